@@ -12,7 +12,7 @@ cd $wt
 demo=$(ls $S/demo.* | head -1)
 run_demo() { if [[ $demo == *.py ]]; then PYTHONPATH=$wt timeout 1200 /venv/bin/python $demo > $1 2>&1; else PYTHONPATH=$wt timeout 1200 bash $demo > $1 2>&1; fi; echo $?; }
 # demos refer to the seeder's own worktree path: rewrite to this one
-sed -i "s#/tmp/seed-[A-Z0-9]*#$wt#g" $demo 2>/dev/null
+sed -i "s#/tmp/seed-[A-Za-z0-9]*#$wt#g" $demo 2>/dev/null
 rc_without=$(run_demo /tmp/confirm-$seed.without.log)
 git apply $S/patch.diff || { echo "patch does not apply"; exit 2; }
 built=no
